@@ -183,7 +183,8 @@ func (r *replayer) step(s Step) error {
 		if ev, ok := r.lastEvent("UpdatePipeline"); !ok || ev.X != 0 {
 			return fmt.Errorf("ResetUpdate: last_log_id=%d after the update", ev.X)
 		}
-		r.running = false
+		// ResetPipeline restarts a pipeline that was started (the Spawn step follows)
+		r.running = wasRunning
 		if !wasRunning {
 			return r.join()
 		}
